@@ -186,7 +186,9 @@ func groupStructZeroWitness(s *sink) {
 }
 
 type GwEmbInner struct {
-	X int64 `json:"x"`
+	X int64  `json:"x"`
+	Y string `json:"y"`
+	Z int64  `json:"z"`
 }
 
 type gwEmbOuter struct {
@@ -293,9 +295,81 @@ func gwNamespacedDefaults(libID string, wrap string) hx.Result {
 	return hx.Result{R: "ok"}
 }
 
+type gwNote string
+
+type gwInvoice struct {
+	Number  int64  `json:"number"`
+	Comment string `json:"comment"`
+}
+
+type gwTicket struct {
+	Number  int64  `json:"number"`
+	Comment gwNote `json:"comment"`
+}
+
+// gwSharedProperty: ONE property value (treat-empty-as-default, a string with a minimum length) declared in two
+// struct-mapped objects whose fields have different Go types of the same kind (string and a defined string type).
+// Each object is a function of its own declaration: what the other one was used for before must not show.
+func gwSharedProperty(first string) hx.Result {
+	shared := schema.NewPropertySchema(schema.NewStringSchema(sp(int64(1)), nil, nil), nil, false, nil, nil, nil, nil, nil).TreatEmptyAsDefaultValue()
+	num := func() *schema.PropertySchema {
+		return schema.NewPropertySchema(schema.NewIntSchema(nil, nil, nil), nil, true, nil, nil, nil, nil, nil)
+	}
+	invoice := schema.NewStructMappedObjectSchema[gwInvoice]("invoice", map[string]*schema.PropertySchema{"number": num(), "comment": shared})
+	ticket := schema.NewStructMappedObjectSchema[gwTicket]("ticket", map[string]*schema.PropertySchema{"number": num(), "comment": shared})
+	use := func(name string) error {
+		var o *schema.ObjectSchema
+		var empty, full any
+		if name == "invoice" {
+			o, empty, full = invoice, gwInvoice{Number: 7}, gwInvoice{Number: 7, Comment: "paid"}
+		} else {
+			o, empty, full = ticket, gwTicket{Number: 7}, gwTicket{Number: 7, Comment: "open"}
+		}
+		for _, v := range []any{full, empty, full, empty} {
+			if err := o.Validate(v); err != nil {
+				return fmt.Errorf("%s: Validate(%+v): %w", name, v, err)
+			}
+			w, err := o.Serialize(v)
+			if err != nil {
+				return fmt.Errorf("%s: Serialize(%+v): %w", name, v, err)
+			}
+			m, _ := w.(map[string]any)
+			if _, has := m["comment"]; has != (v == full) {
+				return fmt.Errorf("%s: Serialize(%+v) = %v: the empty comment counts as not set, a given one is written", name, v, w)
+			}
+			back, err := o.Unserialize(w)
+			if err != nil || back != v {
+				return fmt.Errorf("%s: Unserialize(Serialize(%+v)) = %+v, %v", name, v, back, err)
+			}
+		}
+		return nil
+	}
+	order := []string{"invoice", "ticket", "invoice"}
+	if first == "ticket" {
+		order = []string{"ticket", "invoice", "ticket"}
+	}
+	for _, name := range order {
+		if err := use(name); err != nil {
+			return hx.Result{R: "err", Msg: "used in the order " + fmt.Sprint(order) + ": " + err.Error()}
+		}
+	}
+	return hx.Result{R: "ok"}
+}
+
 func groupStructRepairWitnesses(s *sink) {
 	opt := func(t schema.Type) *schema.PropertySchema {
 		return schema.NewPropertySchema(t, nil, false, nil, nil, nil, nil, nil)
+	}
+	for _, first := range []string{"invoice", "ticket"} {
+		first := first
+		r := hx.Guard(func() hx.Result { return gwSharedProperty(first) })
+		s.stats["gowitness:shared-property"]++
+		what := "one treat-empty-as-default property value declared in two struct-mapped objects with fields of different Go types"
+		if r.R == "panic" {
+			s.finding(Finding{Prop: "C04", What: what + " panicked: " + r.Msg})
+		} else if r.R != "ok" {
+			s.finding(Finding{Prop: "C12", What: what + ": the answer of one object depends on the calls made on the other: " + r.Msg})
+		}
 	}
 	for _, libID := range []string{"Connection", "DriverConnection", "Service"} {
 		for _, wrap := range []string{"", "list", "replicas"} {
@@ -307,6 +381,7 @@ func groupStructRepairWitnesses(s *sink) {
 				s.finding(Finding{Prop: "C04", What: what + " panicked: " + r.Msg})
 			} else if r.R != "ok" {
 				s.finding(Finding{Prop: "C01", What: what + ": " + r.Msg})
+				s.finding(Finding{Prop: "C03", What: what + ": " + r.Msg})
 				s.finding(Finding{Prop: "C14", What: what + ": " + r.Msg})
 			}
 		}
@@ -331,6 +406,24 @@ func groupStructRepairWitnesses(s *sink) {
 			}
 			if _, err := o.Unserialize(w); err != nil {
 				return hx.Result{R: "err", Msg: "Unserialize(Serialize(v)): " + err.Error()}
+			}
+		}
+		// several properties promoted through the SAME embedded pointer: every one of them survives, whatever
+		// order the input map is walked in
+		o3 := schema.NewStructMappedObjectSchema[gwEmbOuter]("Outer3", map[string]*schema.PropertySchema{
+			"x": opt(schema.NewIntSchema(nil, nil, nil)), "y": opt(schema.NewStringSchema(sp(int64(1)), nil, nil)),
+			"z": opt(schema.NewIntSchema(nil, nil, nil)), "n": opt(schema.NewIntSchema(nil, nil, nil))})
+		for round := 0; round < 8; round++ {
+			in := map[string]any{"x": 1, "y": "ops", "z": 3, "n": 2}
+			v3, err := o3.Unserialize(in)
+			if err != nil {
+				return hx.Result{R: "err", Msg: "valid input rejected: " + err.Error()}
+			}
+			if out, ok := v3.(gwEmbOuter); !ok || out.GwEmbInner == nil || out.X != 1 || out.Y != "ops" || out.Z != 3 || out.N != 2 {
+				return hx.Result{R: "err", Msg: fmt.Sprintf("three properties promoted through one embedded pointer: %v came back as %+v (inner %+v)", in, v3, v3.(gwEmbOuter).GwEmbInner)}
+			}
+			if err := o3.Validate(v3); err != nil {
+				return hx.Result{R: "err", Msg: "Validate rejects what Unserialize returned: " + err.Error()}
 			}
 		}
 		return hx.Result{R: "ok"}
